@@ -170,3 +170,64 @@ theorem colMaxU_spec (F : LUFac Rat) (j f luptr nsupr d : Nat)
           rw [h2]; exact le_trans hm0nn hge0
 
 end Slu.Cond
+
+/-! ### flattening the supernode loop of `PivotGrowth` -/
+namespace Slu.Cond
+
+theorem range_append_shift (a b : Nat) (h : a ≤ b) :
+    List.range a ++ (List.range (b - a)).map (a + ·) = List.range b := by
+  have : b = a + (b - a) := by omega
+  conv_rhs => rw [this, List.range_add]
+
+/-- the loop over the supernodes with its early `break` visits the columns `0 .. min(xsup[N], ncols) - 1`
+once each, in order: `step` is the update by one column -/
+theorem pgFold_flat (ncols : Nat) (A : CSC Rat) (inv : Array Nat) (F : LUFac Rat) (step : Rat → Nat → Rat) (r0 : Rat)
+    (N : Nat) (h0 : F.L.xsup.getD 0 0 = 0) (hinc : ∀ k, k < N → F.L.xsup.getD k 0 < F.L.xsup.getD (k + 1) 0)
+    (hsup : ∀ k, k < N → ∀ rpg, (pgSuper (R := Rat) ncols A inv F rpg k).1 =
+      ((List.range (min (F.L.xsup.getD (k + 1) 0) ncols - F.L.xsup.getD k 0)).map (F.L.xsup.getD k 0 + ·)).foldl step rpg) :
+    ((List.range N).foldl (fun (st : Rat × Bool) k =>
+        if st.2 then st else pgSuper (R := Rat) ncols A inv F st.1 k) (r0, false)).1 =
+      (List.range (min (F.L.xsup.getD N 0) ncols)).foldl step r0 := by
+  suffices key : ∀ M, M ≤ N →
+      ((List.range M).foldl (fun (st : Rat × Bool) k =>
+        if st.2 then st else pgSuper (R := Rat) ncols A inv F st.1 k) (r0, false)).1 =
+        (List.range (min (F.L.xsup.getD M 0) ncols)).foldl step r0 ∧
+      (((List.range M).foldl (fun (st : Rat × Bool) k =>
+        if st.2 then st else pgSuper (R := Rat) ncols A inv F st.1 k) (r0, false)).2 = true →
+        ncols ≤ F.L.xsup.getD M 0) from (key N (le_refl _)).1
+  intro M
+  induction M with
+  | zero =>
+    intro _
+    simp [h0]
+  | succ M ih =>
+    intro hM
+    obtain ⟨i1, i2⟩ := ih (by omega)
+    have hlt := hinc M (by omega)
+    rw [List.range_succ, List.foldl_append]
+    simp only [List.foldl_cons, List.foldl_nil]
+    generalize (List.range M).foldl (fun (st : Rat × Bool) k =>
+        if st.2 then st else pgSuper (R := Rat) ncols A inv F st.1 k) (r0, false) = st at i1 i2
+    by_cases hfl : st.2 = true
+    · have hn := i2 hfl
+      simp only [hfl, if_true]
+      refine ⟨?_, fun _ => by omega⟩
+      rw [i1, Nat.min_eq_right hn, Nat.min_eq_right (by omega)]
+    · simp only [hfl, Bool.false_eq_true, if_false]
+      constructor
+      · rw [hsup M (by omega), i1, ← List.foldl_append]
+        by_cases hc : F.L.xsup.getD M 0 ≤ ncols
+        · rw [Nat.min_eq_left hc, range_append_shift _ _ (by omega)]
+        · have e1 : min (F.L.xsup.getD M 0) ncols = ncols := by omega
+          have e2 : min (F.L.xsup.getD (M + 1) 0) ncols = ncols := by omega
+          have e3 : ncols - F.L.xsup.getD M 0 = 0 := by omega
+          rw [e1, e2, e3]; simp
+      · intro hflag
+        have : (pgSuper (R := Rat) ncols A inv F st.1 M).2 =
+            decide ((if F.L.xsup.getD M 0 < min (F.L.xsup.getD (M + 1) 0) ncols then min (F.L.xsup.getD (M + 1) 0) ncols
+              else F.L.xsup.getD M 0) ≥ ncols) := rfl
+        rw [this] at hflag
+        simp only [ge_iff_le, decide_eq_true_eq] at hflag
+        split at hflag <;> omega
+
+end Slu.Cond
